@@ -23,7 +23,7 @@ Definition rec_call (st : store) (r : rref) (t : tok) : store * bool :=
   match snd r with
   | RBefore ks => (st, in_kinds ks t)
   | RAfter ks =>
-    if is_found st (fst r) then (st, true)
+    if is_found st (fst r) then (clear_found st (fst r), true)
     else ((if in_kinds ks t then set_found st (fst r) else st), false)
   end.
 
@@ -117,9 +117,10 @@ Fixpoint bracket_loop (fuel : nat) (os cs ab : list kind) (start : span)
             | None => BPanic
             end
           else if 1 <? n then continue ol ((t, n - 1) :: rest)
-          else if (n =? 1) && (match rest with [] => true | _ => false end) then
-            match ol with Some o => BM o lx1 idx | None => BPanic end
-          else BPanic                                     (* unreachable!() *)
+          else match rest with
+               | [] => match ol with Some o => BM o lx1 idx | None => BPanic end
+               | _ => continue ol rest                    (* an inner pair of another kind closed *)
+               end
         end
       | None =>
         match position (fun k => tok_eqb (tk0 k) tk) os with
